@@ -13,6 +13,8 @@ def lit(v):
         return ('c:' if v[2] else 'b:') + v[1].encode('utf-16-be', 'surrogatepass').hex()
     if k == 'n':
         return 'n:' + v[1].encode('utf-16-be').hex()
+    if k == 'nq':
+        return 'N:' + v[1].encode('utf-16-be').hex()
     if k == 'u':
         return '?'
     if k == 'a':
@@ -30,6 +32,8 @@ def canon_spec(v):
         return ('s', v[1], 1 if v[2] else 0)
     if k == 'n':
         return ('s', v[1], 0)
+    if k == 'nq':
+        return ('s', v[1], 1)
     if k in ('u', 'a'):
         return (k,)
     if k == 'l':
